@@ -4,6 +4,7 @@ verdict parsing, known findings, replay and evidence files.
 Every check is  `./check <ID> [--tier quick|thorough] [--replay f]`  ->  harness/check.py  ->  harness/cXX.py.
 The implementation under test is always /repo's working tree (asserted in `import_algopy`)."""
 import os, sys, json, time, subprocess, hashlib, re, random, shutil
+import numpy
 from fractions import Fraction
 
 VERIF = os.path.dirname(os.path.dirname(os.path.abspath(__file__)))
@@ -404,3 +405,13 @@ def dyadic(rng, lo=-8, hi=8, den=4, nonzero=False):
         v = Fraction(rng.randint(lo * den, hi * den), den)
         if not nonzero or v != 0:
             return v
+
+
+def relayout(a, kind):
+    """the same values with another memory layout: 'F' Fortran order, 'T' trailing two axes stored transposed (a transposed view)"""
+    a = numpy.asarray(a)
+    if kind == 'F':
+        return numpy.asfortranarray(a)
+    if kind == 'T' and a.ndim >= 2:
+        return numpy.ascontiguousarray(a.swapaxes(-1, -2)).swapaxes(-1, -2)
+    return a
